@@ -57,6 +57,7 @@ func (g *gen) leaf(k kind) ex {
 			return atom(r.Pick("Infinity", "NaN", "undefined"))
 		}
 		e := atom(g.numLit())
+		e.numlit = true
 		if isPlainInt(e.s) {
 			e.num = true
 		}
@@ -185,6 +186,13 @@ func (g *gen) member(obj ex, prop string, optional bool) ex {
 	} else {
 		if obj.num && !strings.HasSuffix(os, ")") {
 			os = obj.s
+		}
+		if obj.numlit && isIdent && !g.known {
+			// N04: 1["a"] is printed as 1.a
+			if obj.num {
+				return ex{s: "(" + obj.s + ")." + prop, p: pCall}
+			}
+			return ex{s: obj.s + "." + prop, p: pCall}
 		}
 		e.s = os + "[" + quoteProp(prop, r.Bool()) + "]"
 	}
@@ -370,6 +378,9 @@ func (g *gen) numExpr(d int) ex {
 	case 6:
 		if g.level >= 2016 {
 			l := g.expr(kNum, d-1)
+			if !g.known && (strings.HasPrefix(l.s, "++") || strings.HasPrefix(l.s, "--")) {
+				l = g.leaf(kNum) // N06: (++a)**b is printed as ++a**b which the minifier's own parser rejects
+			}
 			ls := g.w(l, pPostfix)
 			rr := g.expr(kNum, d-1)
 			return ex{s: cat(ls, g.sp(), "**", g.sp(), g.w(rr, pExp)), p: pExp}
@@ -606,6 +617,7 @@ func (g *gen) strExpr(d int) ex {
 		lit := g.numLit()
 		e := atom(lit)
 		e.num = isPlainInt(lit)
+		e.numlit = true
 		if strings.HasSuffix(lit, ".") || strings.ContainsAny(lit, "xXoObB") && false {
 			return atom("\"q\"")
 		}
@@ -1164,7 +1176,11 @@ func (g *gen) objExpr(d int) ex {
 			// K06: new with a call inside the callee
 			return ex{s: "new (h8(Object)).constructor", p: pNew}
 		}
-		return ex{s: cat("new", r.Pick("Object", "Array", "Object()", "Array(2)", "(Object)", "Date(0)")), p: pCall}
+		nw := r.Pick("Object", "Array", "Object()", "Array(2)", "(Object)", "Array")
+		if strings.HasSuffix(nw, ")") && nw != "(Object)" {
+			return ex{s: cat("new", nw), p: pCall}
+		}
+		return ex{s: cat("new", nw), p: pNew}
 	}
 	return g.leaf(kObj)
 }
